@@ -76,7 +76,21 @@ def make_exc(kind):
         return ValueError("injected")
     if kind == "key":
         return KeyError("injected")
+    if kind == "kbd":
+        # Ctrl-C arriving inside a callback: unwinds the stack like any exception, the caller may catch it and go on
+        return KeyboardInterrupt()
+    if kind == "cancel":
+        return Cancelled("injected")
+    if kind == "fnf-wrap":
+        # exceptions that bring a file name / line number of their own (of something else than the model)
+        return FileNotFoundError(2, "No such file or directory", "/nowhere/payload.csv")
+    if kind == "syntaxerr-wrap":
+        return SyntaxError("invalid syntax", ("<embedded>", 7, 3, "x ="))
     raise AssertionError(kind)
+
+
+class Cancelled(BaseException):
+    """an application-defined abort that is deliberately not an Exception (like asyncio.CancelledError)"""
 
 
 # ---------------------------------------------------------------------------
@@ -821,7 +835,7 @@ def draw_fault(t, prop, counts, w, refs, cfg):
         if not sites:
             return None
         site = t.pick(sites, "fault-site")
-        exck = t.pick(["tx", "txloc", "valwrap", "txpartial", "txloc-sem"], "exc-kind")
+        exck = t.pick(["tx", "txloc", "valwrap", "txpartial", "txloc-sem", "fnf-wrap", "syntaxerr-wrap"], "exc-kind")
         return ("callback", site, 1 + t.draw(counts[site], "fault-k"), exck)
     cb = [s for s in CALLBACK_SITES if counts.get(s)]
     options = [("callback", s) for s in cb] + [("input", k) for k in INPUT_FAULTS]
@@ -836,7 +850,7 @@ def draw_fault(t, prop, counts, w, refs, cfg):
         options.append(("nested", "swallow"))
     kind, what = t.pick(options, "fault")
     if kind == "callback":
-        exck = t.pick(["tx", "val", "txloc", "key", "txpartial"], "exc-kind")
+        exck = t.pick(["tx", "val", "txloc", "key", "txpartial", "kbd", "cancel"], "exc-kind")
         return ("callback", what, 1 + t.draw(counts[what], "fault-k"), exck)
     if kind == "nested":
         sites = [s for s in ("prov", "objproc", "init", "modelproc") if counts.get(s)]
@@ -865,9 +879,9 @@ def all_faults(prop, counts, w, refs, cfg, cap=90):
     error before every entity."""
     out = []
     if prop == "C33":
-        sites, kinds = ["matchproc", "objproc"], ["tx", "txloc", "valwrap", "txpartial", "txloc-sem"]
+        sites, kinds = ["matchproc", "objproc"], ["tx", "txloc", "valwrap", "txpartial", "txloc-sem", "fnf-wrap", "syntaxerr-wrap"]
     else:
-        sites, kinds = CALLBACK_SITES, ["tx", "val", "txloc", "key", "txpartial"]
+        sites, kinds = CALLBACK_SITES, ["tx", "val", "txloc", "key", "txpartial", "kbd", "cancel"]
     points = [(s_, k) for s_ in sites for k in range(1, counts.get(s_, 0) + 1)]
     if len(points) * len(kinds) <= cap:
         out = [("callback", s_, k, e) for (s_, k) in points for e in kinds]
@@ -922,7 +936,7 @@ def run_fault(ctx, prop, w, cfg, cfgcls, fault, as_string, d1, counts, refs, e1s
     fclass = fault[0] + ":" + (fault[1] if isinstance(fault[1], str) else "?")
     if fault[0] == "callback":
         rec.fault = (fault[1], fault[2], fault[3])
-        if fault[3] == "valwrap" and not cfg["wrap"]:
+        if fault[3] in ("valwrap", "fnf-wrap", "syntaxerr-wrap") and not cfg["wrap"]:
             # the wrap decorator is part of this fault kind
             procs = {k: textxerror_wrap(v) for k, v in e2.mm._obj_processors.items()
                      if k in cfg["procs"]}
@@ -947,7 +961,7 @@ def run_fault(ctx, prop, w, cfg, cfgcls, fault, as_string, d1, counts, refs, e1s
     except TextXError as e:
         outcome = "error"
         err = dump_error(e)
-    except Exception as e:
+    except (Exception, KeyboardInterrupt, Cancelled) as e:
         outcome = "error"
         err = {"type": type(e).__name__, "msg": str(e)}
     ctx.ev("fault-outcome", outcome, err)
@@ -1135,7 +1149,8 @@ def check_c33(ctx, w, env, fault, err, outcome, as_string, where):
     if err["type"] not in ("TextXError", "TextXSemanticError", "TextXSyntaxError"):
         ctx.violate("C33", "raises-textxerror", cls, f"load raised {err['type']}")
         return
-    if err["msg"] != "injected":
+    want_msg = str(make_exc(exck)) if exck in ("fnf-wrap", "syntaxerr-wrap") else "injected"
+    if err["msg"] != want_msg:
         ctx.violate("C33", "message-preserved", cls, f"message is {err['msg']!r}")
     if exck in ("txloc", "txloc-sem"):
         got = (err.get("line"), err.get("col"), err.get("nchar"), err.get("filename"))
